@@ -159,10 +159,23 @@ pub fn not(vm: &mut Vm) -> Result<VCell, Error> {
 pub fn is_list(vm: &mut Vm) -> Result<VCell, Error> {
     pop_argc(vm, 1, Some(1), "list?")?;
     let mut rest = vm.heap.get(vm.stack.pop()?);
+    // A second cursor follows at half speed. Both cursors can only be about to
+    // step onto the same pair when the list is circular, and then it is not a list.
+    let mut slow = rest.clone();
+    let mut step_slow = false;
     loop {
         if !rest.is_pair() {
             return Ok(rest.is_nil().into());
         }
-        rest = vm.heap.get(&rest.as_cdr()?);
+        let next = rest.as_cdr()?;
+        if step_slow {
+            let slow_next = slow.as_cdr()?;
+            if next == slow_next {
+                return Ok(false.into());
+            }
+            slow = vm.heap.get(&slow_next);
+        }
+        step_slow = !step_slow;
+        rest = vm.heap.get(&next);
     }
 }
